@@ -165,6 +165,19 @@ def handle (j : Json) : Except String Json := do
     let pos ← posOfJson (← j.getObjVal? "pos")
     let r := detachAll mols pos
     pure (okJson [("mols", Json.arr (r.1.map molToJson).toArray), ("pos", posToJson r.2)])
+  | "lig_spec" =>
+    let orig ← (← (← j.getObjVal? "orig").getArr?).toList.mapM molOfJson
+    let attached ← molsOfJson j
+    let final ← (← (← j.getObjVal? "final").getArr?).toList.mapM molOfJson
+    let pos ← posOfJson (← j.getObjVal? "pos")
+    let posAfter ← posOfJson (← j.getObjVal? "pos_after")
+    let a := ligStructureSame orig final
+    let b := ligPositionsHanded attached pos posAfter
+    let c := ligOthersKept attached pos posAfter
+    pure (okJson [("holds", Json.bool (a && b && c)),
+                  ("why", Json.str ((if a then "" else "the molecule list changed; ") ++
+                    (if b then "" else "a ligand residue does not hold the position generated for its attached node; ") ++
+                    (if c then "" else "another residue lost its position; ")))])
   | "split" =>
     let atoms ← (← (← j.getObjVal? "atoms").getArr?).toList.mapM atomOfJson
     let maxResid ← (← j.getObjVal? "max_resid").getInt?
